@@ -266,7 +266,9 @@ func (req *SrvReq) Process() {
 	srv := conn.Srv
 	tc := req.Tc
 
-	if tc.Fid != NOFID && tc.Type != Tattach {
+	switch tc.Type {
+	case Twalk, Topen, Tcreate, Tread, Twrite, Tclunk, Tremove, Tstat, Twstat:
+		/* these name an existing fid; NOFID is not in the table either */
 		srv.Lock()
 		req.Fid = conn.FidGet(tc.Fid)
 		srv.Unlock()
